@@ -140,7 +140,8 @@ def bulk_key(m, flavour):
 
 def _tlc_model(args):
     module, cfg, workers, timeout = args
-    return cfg, common.tlc(module, cfg=cfg, workers=workers, timeout=timeout, tag="c15-" + cfg, env=JVM)
+    return cfg, common.tlc(module, cfg=cfg, workers=workers, timeout=timeout, tag="c15-" + cfg, env=JVM,
+                           heap="1g" if "canary" in cfg else "3g")
 
 
 def validate_part(args):
@@ -235,7 +236,7 @@ def run(chk, tier):
     events = [e for e in rows if e.get("op") not in ("panic", "note")]
     for e in (events[1], events[len(events) // 3], events[-1]):
         chk.sample({"oplog_event": {k: (v if len(json.dumps(v)) < 300 else "<%d bytes>" % len(json.dumps(v))) for k, v in e.items()}})
-    rejected = validate_log(chk, events, "c15", "oplog real code")
+    rejected = validate_log(chk, events, "c15", "oplog real code", parts=8 if thorough else PARTS, workers=2 if thorough else 3)
     for e in rejected:
         chk.violation(event_key(e), "recorded result does not satisfy the defining identity (%s)" % e.get("op"),
                       {"event": e, "roots": events[0], "spec": "spec/PolyOps.tla via spec/PolyLogTrace.tla",
@@ -278,6 +279,24 @@ def run(chk, tier):
     if not r.ok:
         raise ToolError("the harness's own reference arithmetic is rejected by TLC (%s)" % r.violated)
     chk.traces += 1
+    # the fast congruence operator MacEq of PolyOps against the Limbs oracle on the same events: every reference
+    # event accepted, every near miss (one flipped bit, +-1, +p where it fits) classified correctly
+    refrows = common.read_ndjson(refp)
+    st = []
+    for i, e in enumerate(refrows):
+        st.append(e)
+        rv = _val(e["r"])
+        alts = [rv ^ (1 << (i * 7 % 64)), (rv + 1) % 2 ** 64, (rv - 1) % 2 ** 64]
+        for a in alts:
+            neg = a % P != rv % P
+            st.append(dict(e, op="macneg" if neg else "mac", r=[(a >> (8 * k)) & 255 for k in range(8)]))
+        if rv + P < 2 ** 64:
+            st.append(dict(e, r=[((rv + P) >> (8 * k)) & 255 for k in range(8)]))
+    stp = os.path.join(common.OUT, "c15selftest.ndjson")
+    common.write_ndjson(stp, [events[0]] + st)
+    rr, badl = validate_part((stp, "c15selftest", 4, 900))
+    chk.add_tlc("MacEq self-test against Limbs (%d events)" % len(st), rr)
+    chk.canary("fast congruence check MacEq agrees with the Limbs oracle on accepted events and near misses", rr.ok and not badl)
 
     # ---- A (collect): results of the model-checking runs started at the beginning
     results = dict(f.result() for f in model_futures)
